@@ -464,6 +464,9 @@ func drawSpec(tp *tape.Tape, idx int, render, thorough bool, first bool, allElk 
 		}
 		sp.ViaPlugin = tp.Chance(1, 2, "spec.viaplugin") || allElk
 		sp.Sketch = tp.Chance(1, 3, "spec.sketch")
+		if !sp.Sketch && bytes.Contains(sp.Script, []byte("-arrowhead: {shape:")) && tp.Chance(1, 2, "spec.sketch.arrowheads") {
+			sp.Sketch = true // the sketch renderer draws every arrowhead shape with code of its own
+		}
 		themes := []int64{0, 1, 3, 4, 5, 6, 8, 100, 101, 200, 300, 301}
 		if tp.Chance(1, 3, "spec.theme") {
 			sp.Theme = themes[tp.Draw(len(themes), "spec.themeid")]
@@ -500,11 +503,14 @@ func Run(t *testing.T, cfg harness.Config, idx int, tp *tape.Tape) (res harness.
 	// slow; otherwise a single diagram gets it one time in ten): what one ELK layout leaves
 	// behind can only show in another ELK layout.
 	allElk := render && tp.Chance(1, 6, "session.allelk")
+	if allElk && nspec > 2 {
+		nspec = 2 // ELK layouts are slow: an ELK-only session stays small
+	}
 	var specs []Spec
 	for i := 0; i < nspec; i++ {
 		specs = append(specs, drawSpec(tp, idx, render, cfg.Thorough(), i == 0, allElk))
 	}
-	if tp.Chance(1, 5, "session.family") {
+	if !allElk && tp.Chance(1, 5, "session.family") {
 		// a family: different programs over the same importable files
 		scripts, files := d2gen.Family(tp)
 		base := drawSpec(tp, idx, render, cfg.Thorough(), false, allElk)
@@ -523,6 +529,9 @@ func Run(t *testing.T, cfg harness.Config, idx int, tp *tape.Tape) (res harness.
 	var execs []*exec
 	for i := range specs {
 		reps := 2 + tp.Draw(2, "session.reps")
+		if allElk {
+			reps = 2
+		}
 		for r := 0; r < reps; r++ {
 			execs = append(execs, &exec{spec: i})
 		}
@@ -561,7 +570,7 @@ func Run(t *testing.T, cfg harness.Config, idx int, tp *tape.Tape) (res harness.
 			fmt.Fprintf(os.Stderr, "HOT %v\n", hot)
 		}
 	}
-	if len(hot) > 0 {
+	if len(hot) > 0 && !allElk {
 		// State shared between executions is where interleavings matter: more copies of
 		// every input, so that there are more partners and more attempts.
 		for i := range specs {
